@@ -66,7 +66,8 @@ def r2_driver(ctx):
     fn = F.fn(SEL + "selection")
     bad = []
     n = 0
-    for below in ((), ("b0",), ("b0", "b1")):
+    import statemodel
+    for below, owner in (((), 0), (("b0",), 0), (("b0", "b1"), 0), (("b0",), 1)):
       for size in range(0, 4):
         picks = [()] + [tuple(c) for k in range(1, 4) for c in itertools.product(range(size), repeat=k)][:40]
         if below:
@@ -82,21 +83,29 @@ def r2_driver(ctx):
                     if not isinstance(src, Vec):
                         return TOP
                     return ok(new_vec(interp, [HRef(src.vid, (src.lo or 0) + i) for i in pick]))
-                popsym = Sym("populations", {sf: Sym("stack")})
-                table = {"mahf::state::State::populations_mut": popsym, "mahf::state::State::populations": popsym, "mahf::state::State::random_mut": Sym("rng"),
-                         SELT + "::select": sel}
-                it = install(Interp(fn.body, chain(mk_oracle(table), StackModel(sf), coll_oracle, std_oracle), [Sym("component"), Sym("problem"), Sym("state")], facts=F,
-                                    inline=lambda k: k.startswith(POP + "::") or INL(k), max_visits=10))
+                # the stack and the generator are cells of the typed store, owned by the scope the driver runs in (0) or by the
+                # enclosing scope (1: the operator sits inside a Scope)
+                cells, popsym, _sf = statemodel.stack_and_rng(F, owner)
+                store = statemodel.Store(F, levels=2, auto=statemodel.by_prefix(F, cells))
+                table = {SELT + "::select": sel}
+                it = install(Interp(fn.body, chain(mk_oracle(table), store, StackModel(sf), coll_oracle, std_oracle), [Sym("component"), Sym("problem"), Sym("state")], facts=F,
+                                    inline=lambda k: k.startswith(POP + "::") or INL(k) or statemodel.inline(k), max_visits=10))
                 src_pop = tuple(c07.ind(i) for i in range(size))
                 heap = {"cur": src_pop}
                 for j, bname in enumerate(below):
                     heap[bname] = tuple(c07.ind(10 * (j + 1) + i) for i in range(2))
                 it.init_state = {"stack": tuple(Vec(bname) for bname in below) + (Vec("cur"),), "heap": heap, "next_vec": 0}
+                store.install(it)
                 n += 1
                 for p in it.run():
-                    ctxs = ("%d with %d other population(s) underneath" % (size, len(below)), list(pick), outcome)
+                    ctxs = ("%d with %d other population(s) underneath%s" % (size, len(below), ", the stack owned by the enclosing scope" if owner else ""), list(pick), outcome)
                     st = list(p.mstate.get("stack", ()))
                     names = [getattr(x, "vid", repr(x)) for x in st]
+                    held = {ty.split("<")[0].split("::")[-1]: store.holders(p, ty) for ty in store.types()}
+                    if any(ls != [owner] for ls in held.values()):
+                        bad.append(ctxs + ("leaves %s held by scope level(s) %s; the stack and the generator belong to scope level %d (0 = the scope the operator runs in, 1 = the enclosing one) and stay there" % (
+                            sorted(held), sorted(held.values()), owner),))
+                        continue
                     if p.mstate.get("unmodelled"):
                         bad.append(ctxs + ("applies %s to the stack" % (p.mstate["unmodelled"],),))
                         continue
